@@ -76,7 +76,7 @@ func init() {
 		Quick:    Tier{Params: map[string]int{"kwpos": 4, "spellings": 2, "slots": 3, "nested_targets": 1}},
 		Thorough: Tier{Params: map[string]int{"kwpos": 12, "spellings": 3, "slots": 3, "nested_targets": 1, "chain_orders": 1}},
 		Bounds: []string{
-			"schemas family: three documents (file:///w/root.json with definitions A,B; file:///w/sub/a.json with C; file:///x/c.json with D); each of A,B,C holds, at a keyword position chosen among kwpos of {properties, items, tuple items, allOf, anyOf, oneOf, not, additionalProperties, additionalItems, patternProperties, dependencies, definitions}, either nothing or a $ref to one of A,B,C,D (in one of `spellings` spellings), to the whole document sub/a.json, or to a pointer below a definition (fragment-only / relative path with ../ / absolute URL); all combinations explored (every cycle topology over these nodes arises); property name needs ~0/~1 escaping",
+			"schemas family: three documents (root with definitions A,B and a leaf named a; sub/a.json with \"C d\"; a third document with D in another directory tree), either all file: URLs or http URLs with the third document on another port of the same host; each of A,B,C holds, at a keyword position chosen among kwpos of {properties, items, tuple items, allOf, anyOf, oneOf, not, additionalProperties, additionalItems, patternProperties, dependencies, definitions}, either nothing or a $ref to one of A,B,C,D (in one of `spellings` spellings), to the whole document sub/a.json, or to a pointer below a definition (fragment-only / relative path with ../ / absolute URL); all combinations explored (every cycle topology over these nodes arises); property name needs ~0/~1 escaping",
 			"chains family: root parameters/responses/path item that reference (or not) parameters/responses/path items of two other documents, second hops local to those documents or back into the root; same names with different content in different documents so that a wrong-document resolution changes the meaning",
 			"AbsoluteCircularRef symbolic; iteration order of every map of the object model (definitions, properties, parameters, responses, paths) is a symbolic permutation in the schemas family",
 			"oracle (harness Go code, executed by the same engine, natively on replay): coinductive comparison of the unfoldings of input and output root documents, following $refs with net/url ResolveReference against the URL of the containing document and RFC 6901 evaluation on generic JSON",
@@ -90,7 +90,7 @@ func init() {
 		Quick:    Tier{Params: map[string]int{"kwpos": 4, "spellings": 2, "slots": 3, "nested_targets": 1}},
 		Thorough: Tier{Params: map[string]int{"kwpos": 12, "spellings": 3, "slots": 3, "nested_targets": 1}},
 		Bounds: []string{
-			"schemas family: three documents (file:///w/root.json with definitions A,B; file:///w/sub/a.json with C; file:///x/c.json with D); each of A,B,C holds, at a keyword position chosen among kwpos of {properties, items, tuple items, allOf, anyOf, oneOf, not, additionalProperties, additionalItems, patternProperties, dependencies, definitions}, either nothing or a $ref to one of A,B,C,D (in one of `spellings` spellings), to the whole document sub/a.json, or to a pointer below a definition (fragment-only / relative path with ../ / absolute URL); all combinations explored (every cycle topology over these nodes arises); property name needs ~0/~1 escaping",
+			"schemas family: three documents (root with definitions A,B and a leaf named a; sub/a.json with \"C d\"; a third document with D in another directory tree), either all file: URLs or http URLs with the third document on another port of the same host; each of A,B,C holds, at a keyword position chosen among kwpos of {properties, items, tuple items, allOf, anyOf, oneOf, not, additionalProperties, additionalItems, patternProperties, dependencies, definitions}, either nothing or a $ref to one of A,B,C,D (in one of `spellings` spellings), to the whole document sub/a.json, or to a pointer below a definition (fragment-only / relative path with ../ / absolute URL); all combinations explored (every cycle topology over these nodes arises); property name needs ~0/~1 escaping",
 			"chains family: root parameters/responses/path item that reference (or not) parameters/responses/path items of two other documents, second hops local to those documents or back into the root; same names with different content in different documents so that a wrong-document resolution changes the meaning",
 			"AbsoluteCircularRef symbolic; iteration order of every map of the object model (definitions, properties, parameters, responses, paths) is a symbolic permutation in the schemas family",
 			"oracle: cycle analysis of the input reference graph on generic JSON (a node is on a cycle iff some chain of references from it reaches it or a container of it); every $ref of the output must resolve from the root location to such a node, have the absolute / root-relative form the option prescribes; acyclic inputs must come out $ref-free and identical under a second, independently ordered expansion",
